@@ -13,6 +13,7 @@ import (
 	"strings"
 	"testing"
 	"time"
+	"unicode/utf8"
 
 	"github.com/slackhq/nebula/cert"
 	"github.com/slackhq/nebula/cert/p256"
@@ -536,6 +537,15 @@ func genTamper(r *hlib.Rand, n int, emit func(string, ...any)) {
 	}
 }
 
+func allValid(gs []string) bool {
+	for _, g := range gs {
+		if !utf8.ValidString(g) {
+			return false
+		}
+	}
+	return true
+}
+
 func gen(r *hlib.Rand, n int, tier, profile string, emit func(string, ...any)) {
 	if profile == "C02" {
 		genTamper(r, n, emit)
@@ -561,6 +571,28 @@ func gen(r *hlib.Rand, n int, tier, profile string, emit func(string, ...any)) {
 			st = "none"
 		}
 		emit("issue %s %s %s%s", hlib.Hex(sig), st, f.Desc(), tail)
+		// the same fields hand-encoded without the signer's validation: what the decoders make of inputs
+		// the signer refuses (empty / over-long names, empty groups, duplicate or 4in6 networks, …)
+		if (f.Version == 1 || f.Version == 2) && r.Chance(1, 2) {
+			g := f
+			g.Issuer = hlib.Hex(r.Bytes(32))
+			if g.Version == 1 {
+				var v4 []netip.Prefix
+				for _, n := range append(append([]netip.Prefix{}, g.Networks...), g.Unsafe...) {
+					if n.Addr().Is4() {
+						v4 = append(v4, n)
+					}
+				}
+				g.Networks, g.Unsafe = v4, nil
+			}
+			if g.Version == 2 || (utf8.ValidString(g.Name) && allValid(g.Groups)) {
+				craftSig := sig
+				if len(craftSig) == 0 {
+					craftSig = []byte{1}
+				}
+				emit("dec %d std 0 - %s", g.Version, hlib.Hex(cl.Craft(g, nil, craftSig)))
+			}
+		}
 		c, err := doIssue(sig, signer, f)
 		if err != nil {
 			if r.Chance(1, 3) {
